@@ -275,7 +275,7 @@ Definition src2_unravel (b64decode : pyval -> pyval) (zlib_decompress : pyval ->
    | BErr => PErr
    end).
 
-(* saml2/entity.py:Entity.artifact2destination, lines 1585-1612 *)
+(* saml2/entity.py:Entity.artifact2destination, lines 1590-1617 *)
 Definition src2_artifact2destination (b64decode : pyval -> pyval) (int_base : pyval -> pyval -> pyval) (int_dec : pyval -> pyval) (str_isascii : pyval -> pyval) (str_isdigit : pyval -> pyval) (v_self : pyval) (v_artifact : pyval) (v_descriptor : pyval) : pyval :=
   let v__art := PErr in
   let v_typecode := PErr in
